@@ -248,6 +248,12 @@ def r7_hash_separates(ctx):
 
 from rules.first_sight import r_first_sight
 
+def r20_unconditional_mutators(ctx):
+    """Mutators this property relies on always perform their effect (shared table in rules/mutators.py)."""
+    import rules.mutators as mutators
+    mutators.run_for(ctx, "C07")
+
+
 RULES = [
     ("C07.R1", "every RepliconServer::send call site is classified (replication / dependent event / independent event)", r1_send_sites, 6, ["default", "all-features", "server-only"]),
     ("C07.R2", "replication reaches only clients holding the crate-private authorized components", r2_replication, 10, ["default", "all-features", "server-only"]),
@@ -256,5 +262,6 @@ RULES = [
     ("C07.R5", "handshake: authorized exactly on equal hashes; mismatch notifies and disconnects (same rule as C14.R4)", r5_handshake, 10, ["default", "all-features"]),
     ("C07.R6", "first-sight completeness: a client that does not hold an entity yet (just authorized, just spawned, visibility gained) is sent every replicated component", r_first_sight, 14, ["default", "all-features", "server-only"]),
     ("C07.R7", "registrations that differ hash differently: every registration feeds the hasher with a distinct method/part (same rules as C14.R1, C14.R2)", r7_hash_separates, 40, ["default", "all-features"]),
+    ("C07.R20", "mutators this property relies on always perform their effect (rules/mutators.py): no early return, no guard outside the allowed set", r20_unconditional_mutators, 2, ["default", "all-features"]),
 ]
 THOROUGH_CONFIGS = ["default", "all-features", "server-only"]
